@@ -48,6 +48,14 @@ for bad in ('f(x', 'color: rgb(1,2', 'top: (1', 'color: url(', 'a { b: c } }'):
 STMT_GARBAGE.remove('a( {top:0}')
 
 
+# unknown at-rules that end with their block: the next declaration may follow at once, without ';' or white space
+ENDS_WITH_BLOCK = {'@x {y:z}', '@foo bar { a { b: c } }', '@x{}', '@media print { a { top: 0 } }'}
+DECL_GARBAGE.extend(sorted(ENDS_WITH_BLOCK - set(DECL_GARBAGE)))
+# reserved at-keywords with a block where none belongs: the statement ends with that block (CSS 2.1 4.1.5)
+STMT_GARBAGE.extend(['@import "x.css" { foo: bar }', '@import {}', '@namespace p { a: b }', '@charset { }', '@import url(x.css) print { a { top: 0 } }',
+                     '@namespace {} ', '@variables;', '@page;', '@media;', '@font-face;', '@font-face x;'])
+
+
 MAY_LEAVE_DECLARATION = {'color: red;;;', 'color:', 'color: red ! x', 'top: 1px 2 !', 'color: a:b', 'color: =', 'color: #', 'x: f(;)', '$a: b', 'u+0-7f: x',
                          '12: 3', 'co lor: red', 'color red', 'foo(bar): baz'}
 
@@ -127,7 +135,7 @@ def replace_at(proj, path, new):
 
 inject_decl_strategy = st.fixed_dictionaries({
     'model': A.sheet(max_body=3), 'seed': st.integers(0, 2 ** 30), 'which': st.integers(0, 50), 'pos': st.integers(0, 6),
-    'garbage': st.sampled_from(DECL_GARBAGE),
+    'garbage': st.sampled_from(DECL_GARBAGE + sorted(ENDS_WITH_BLOCK)), 'noterm': st.booleans(),
 })
 
 
@@ -140,7 +148,7 @@ def check_inject_decl(case, ctx):
     path, items = blocks[case['which'] % len(blocks)]
     i = min(case['pos'], len(items))
     orig_text = A.render_sheet(m, case['seed'])
-    items.insert(i, {'k': 'raw', 'text': case['garbage']})
+    items.insert(i, {'k': 'raw', 'text': case['garbage'], 'noterm': bool(case.get('noterm')) and case['garbage'] in ENDS_WITH_BLOCK})
     try:
         dam_text = A.render_sheet(m, case['seed'])
     finally:
@@ -348,6 +356,11 @@ ESC_SHEETS = [
     # garbage with a balanced block inside a margin box
     ('@page { @top-left { color: red; foo {a:b}; width: 1px } margin: 1cm } a { top: 0 }',
      '@page { @top-left { color: red; width: 1px } margin: 1cm } a { top: 0 }', 'margin-box:block-in-garbage-closes-the-box'),
+    # an at-rule between declarations ends with its block: what follows, with or without white space, is the next declaration
+    ('a { left: 0; @media print { a { top: 0 } } color: red; top: 0 } b { top: 0 }', 'a { left: 0; color: red; top: 0 } b { top: 0 }', 'decl:known-at-rule-swallows-next-declaration'),
+    ('a{left:0;@page{margin:0}color:red;top:0}b{top:0}', 'a { left: 0; color: red; top: 0 } b { top: 0 }', 'decl:known-at-rule-swallows-next-declaration'),
+    ('@font-face { @media print { a { top: 0 } }/*;*/ font-family: x; src: url(y) }', '@font-face { /*;*/ font-family: x; src: url(y) }', 'decl:known-at-rule-swallows-next-declaration'),
+    ('@page { @font-face { x: y } margin: 1cm; @import "x"; top: 0 }', '@page { margin: 1cm; top: 0 }', 'decl:known-at-rule-swallows-next-declaration'),
 ]
 
 
